@@ -4,7 +4,7 @@
 use super::*;
 use crate::verif_common::*;
 
-// @obl props=C18 tier=quick fns=Date::encode,Date::decode
+// @obl props=C18 tier=quick flags=nocover fns=Date::encode,Date::decode
 // @desc Kani function contract on Date::encode (requires 1980<=y<=2107, 1<=m<=12, 1<=d<=31; ensures result == (y-1980)<<9 | m<<5 | d and Date::decode(result) == self): every one of the 47616 representable dates round-trips exactly (one-day resolution of the access date)
 #[kani::proof_for_contract(crate::time::Date::encode)]
 fn date_encode_contract() {
@@ -12,7 +12,7 @@ fn date_encode_contract() {
     let _ = d.encode();
 }
 
-// @obl props=C18 tier=quick fns=Time::encode,Time::decode
+// @obl props=C18 tier=quick flags=nocover fns=Time::encode,Time::decode
 // @desc Kani function contract on Time::encode (requires h<=23, mi<=59, s<=59, ms<=999; ensures hi-res byte <= 199, decode(lo, hi) == self with millis rounded down to 10 ms [creation time], decode(lo, 0) == self with sec rounded down to even and millis 0 [modification time])
 #[kani::proof_for_contract(crate::time::Time::encode)]
 fn time_encode_contract() {
